@@ -300,7 +300,17 @@ func report(p *propSpec, tier string, seed int, results []UnitResult, t0 time.Ti
 			continue
 		}
 		if len(r.Undecided) > 0 {
-			st.undecidedUnits++
+			// a unit that stopped exploring because it already has violations is not "undecided" for the
+			// purpose of the 5% rule (its verdict is the violation); it is still listed
+			onlyStopped := len(r.Violations) > 0
+			for _, u := range r.Undecided {
+				if u != "stopped-after-violations" {
+					onlyStopped = false
+				}
+			}
+			if !onlyStopped {
+				st.undecidedUnits++
+			}
 			undecided = append(undecided, r.Unit.ID+": "+strings.Join(uniq(r.Undecided), ","))
 		}
 		st.paths += r.Paths
@@ -493,7 +503,7 @@ func report(p *propSpec, tier string, seed int, results []UnitResult, t0 time.Ti
 			}
 		}
 	}
-	os.MkdirAll(filepath.Join(verifDir, "replays"), 0o755)
+	os.MkdirAll(filepath.Join(outDir, "replays"), 0o755)
 	nviol := 0
 	knownPrinted := map[string]bool{}
 	for i, vr := range vrecs {
@@ -511,7 +521,7 @@ func report(p *propSpec, tier string, seed int, results []UnitResult, t0 time.Ti
 		}
 		nviol++
 		h := sha1.Sum([]byte(vr.key))
-		file := filepath.Join(verifDir, "replays", fmt.Sprintf("%s-%x.json", p.ID, h[:6]))
+		file := filepath.Join(outDir, "replays", fmt.Sprintf("%s-%x.json", p.ID, h[:6]))
 		b, _ := json.MarshalIndent(map[string]any{"property": p.ID, "key": vr.key, "harness": vr.u.Harness, "pkg": vr.u.Pkg, "params": vr.u.Params,
 			"model": vr.v.Model, "failed_assertion": vr.v.ID, "message": vr.v.Msg, "observed": vr.v.Detail}, "", " ")
 		os.WriteFile(file, b, 0o644)
@@ -526,7 +536,9 @@ func report(p *propSpec, tier string, seed int, results []UnitResult, t0 time.Ti
 	if decidedUnits == 0 {
 		broken = append(broken, "no unit was decided")
 	}
-	if len(broken) > 0 {
+	if len(broken) > 0 && nviol == 0 {
+		// a reproduced violation is a verdict on the code under test whatever else went wrong in the run;
+		// BROKEN (exit 2) is reserved for runs that have nothing but machinery problems to report
 		exit = 2
 	}
 	// evidence
@@ -577,9 +589,9 @@ func report(p *propSpec, tier string, seed int, results []UnitResult, t0 time.Ti
 			"counterexamples_replayed":      nv,
 		},
 	}
-	os.MkdirAll(filepath.Join(verifDir, "evidence"), 0o755)
+	os.MkdirAll(filepath.Join(outDir, "evidence"), 0o755)
 	b, _ := json.MarshalIndent(ev, "", " ")
-	os.WriteFile(filepath.Join(verifDir, "evidence", p.ID+".json"), b, 0o644)
+	os.WriteFile(filepath.Join(outDir, "evidence", p.ID+".json"), b, 0o644)
 	for _, l := range lines {
 		fmt.Println(l)
 	}
